@@ -1430,3 +1430,31 @@ Proof.
     replace (u - q * n) with (u + (- q) * n) by lia. apply Z.mod_add. lia.
   - unfold d. rewrite Zplus_mod_idemp_r. replace (ix + (u - ix)) with u by lia. apply Z.mod_small. lia.
 Qed.
+
+(* ================================================================== *)
+(* degenerate sizes                                                    *)
+
+(* one configured server: Forking returns that server's outcome, a panic as PanicError *)
+Lemma forking_single o : forking [o] [0%nat] = Some (result_of o).
+Proof. destruct o; reflexivity. Qed.
+
+Lemma fork_lts_single o :
+  exists s, fork_lts [o] [0%nat; 0%nat] = Some s /\ all_done (pcs s) = true /\
+            invoked s = [0%nat] /\ f_done (sh s) = Some (result_of o).
+Proof. destruct o; eexists; repeat split; reflexivity. Qed.
+
+Lemma bcast_single o :
+  bcast_run [o] [0%nat] =
+  {| b_slots := [slot_of o]; b_err := if is_ok o then None else Some (result_of o) |}.
+Proof. destruct o; reflexivity. Qed.
+
+(* no server: both plugins call next once on the caller's goroutine, nothing is recovered;
+   one server / no server under the retry configs: every attempt goes to URL 0 / nil *)
+Lemma handle_single_server c ix cl :
+  ix_ok 1 ix -> Forall (fun u => u = 0) (attempts (handle c 1 ix cl)).
+Proof.
+  intros Hix. unfold handle.
+  destruct (loop_urls_valid c 1 (eff_idem c cl) (script cl) (budget_of c cl) 0 (start 1 ix (it_retried cl)))
+    as [Ha _]; [lia | exact Hix | cbn; unfold ix_ok; lia |].
+  eapply Forall_impl; [| exact Ha]. unfold ix_ok. intros u Hu. lia.
+Qed.
